@@ -51,6 +51,12 @@ func init() {
 		assumptions: append([]string{"a compare helper returns the sign of the ordering of its operands; package sort sorts"}, commonAssumptions...),
 		technique:   "abstract interpretation into residual programs + ordering-table evaluation of less/min/max decisions + structural loop rules",
 	}
+	checks["C14"] = &checkDef{
+		run: runR_C14,
+		explanation: "Engine R on contains/unique/set/union/intersect/filter/takewhile/all/any: guard→effect obligations on each residual, decided with the guard set (conditions with polarity that hold at a statement: enclosing ifs and negations of earlier leaving ifs). contains: `return true` only under an equality test (== licensed by canEqual, else the derived equal helper) of the current element and the item, `return false` only after the loop; union/intersect: the single append/insert is of the current element, into the right result, only under ¬contains(this, v) / contains(that, v) / a comma-ok lookup; filter: slot write list[j]=list[i] and j++ only under predicate(elem), result list[:j]; takewhile: break only under ¬predicate, append only under predicate; all/any: inner/outer constants and polarity; predicate called exactly once per iteration on the range element, forward range; set inserts every element; unique: membership only through derived Equal against an element drawn from the bucket of the element's own derived Hash, write cursor/slot/table updated only for first occurrences, the table records the write cursor. Inputs are not written except by the documented in-place helpers. G9 tabulates contains.canEqual and derive.IsComparable. Not decided: set semantics as such, order of keys(set(..)).",
+		assumptions: commonAssumptions,
+		technique:   "abstract interpretation into residual programs + guard-set (polarity) effect rules on the residual ASTs; predicate tabulation",
+	}
 	checks["C07"] = &checkDef{
 		run: func(c *Ctx) {
 			runG4(c.Repo, c.Rep)
